@@ -1,3 +1,4 @@
+import Treepath.Proofs.Drive
 import Treepath.Model.Has
 import Treepath.Proofs.MachineLemmas
 /- C17 — tracing observes without interfering -/
@@ -31,5 +32,19 @@ theorem failed_attempt_reports_none (view : α → View α) (steps : Array (Step
     (hv : vmatch view st c tm (tm.vidx + 1) s = .ok st' none evs) (hc : st'.heap[c]? = some tm') :
     (matchAction view steps st c tm).2.1 = evs ++ [.attempt tm.node (tm.vidx + 1) none none] := by
   simp [matchAction, hs, hv, hc]
+
+/-- **the trace is the specification's stream.**  The complete run of the machine emits, event
+for event, `stream steps 0 root`: one `attempt` per `match_action` carrying what the vertex
+returned, the predicate's own (stamped) events in place, results in place. -/
+theorem trace_is_stream (steps : Array (Step J)) (src : Src J) (hq : Quiet steps.toList) :
+    ∃ k stD, hrun J.view steps src (1 + k) freshIter = (stD, stream steps.toList 0 src.rootNode) ∧ stD.act = .done :=
+  full_run steps src hq
+
+/-- in the stream every result is immediately preceded by the attempt that produced it: for
+a path with at least one step, `[…, attempt last vi (some m), result m, …]` -/
+theorem result_follows_its_attempt (s : Step J) (hc : s.cls = .single) (vi : Nat) (n n' : MNode J)
+    (h : singleOf J.view s n = some n') :
+    stream [s] vi n = [.attempt n (vi+1) (some n') none, .result n'] := by
+  simp [stream, hc, h]
 
 end Treepath.C17
